@@ -37,12 +37,12 @@ pub const STRINGS: &[&str] = &[
     "", "a", "b", "c", "k", "key", "Key", "KEY", "ke", "key2", "v", "abc", "ABC", "é", "日本", "😀", "a😀b",
     "a\"b", "a\\b", "line\nbreak", "tab\there", " lead", "trail ", "/", "</script>", "null", "true", "0", "10",
     "-1", "\u{7f}", "\u{80}", "\u{7ff}", "\u{800}", "\u{ffff}", "\u{10000}", "\u{1}", "ß", "ǅ", "\u{10ffff}", "\u{10fc00}", "\u{d7ff}", "\u{e000}",
-    "x\u{10ffff}\n",
+    "x\u{10ffff}\n", "\u{0}", "a\u{0}b",
 ];
 
 pub const KEYS: &[&str] = &[
     "a", "b", "c", "d", "A", "B", "k", "key", "Key", "KEY", "ke", "keys", "", "é", "名", "😀k", "a b", "a.b", "0",
-    "1", "-1", "id", "ID", "Id", "x", "y", "z", "aa", "ab", "a\"q", "n\\s",
+    "1", "-1", "id", "ID", "Id", "x", "y", "z", "aa", "ab", "a\"q", "n\\s", "\u{0}", "\u{10ffff}",
 ];
 
 const I64S: &[i64] = &[
@@ -159,7 +159,23 @@ pub fn gen_boundary_value(r: &mut Rng, cfg: &GenCfg) -> MVal {
             _ => MVal::Str(r.pick(&["", "a", "é"]).to_string()),
         }
     };
-    match r.below(7) {
+    // the 65,536-element kinds cost milliseconds per call: one boundary value in six
+    let kind = if r.chance(1, 6) { *r.pick(&[4u64, 6, 7]) } else { *r.pick(&[0u64, 1, 2, 3, 5, 8]) };
+    match kind {
+        7 => {
+            // an object with 65,535 / 65,536 / 65,537 members
+            let n = *r.pick(&[65_535usize, 65_536, 65_537]);
+            MVal::Obj((0..n).map(|i| (format!("k{i:05}"), if i % 5 == 0 { MVal::Null } else { MVal::U64((i % 4) as u64) })).collect())
+        }
+        8 => {
+            // a key of 65,535 / 65,536 / 65,537 bytes next to short ones
+            let n = *r.pick(&[65_535usize, 65_536, 65_537]);
+            let mut m = BTreeMap::new();
+            m.insert("k".repeat(n), small(r));
+            m.insert("a".to_string(), small(r));
+            m.insert("z".to_string(), gen_scalar(r, cfg));
+            MVal::Obj(m)
+        }
         6 => {
             // the same item 65,535 / 65,536 / 65,537 times: where a 16-bit occurrence count first goes wrong
             let n = *r.pick(&[65_535usize, 65_536, 65_537]);
